@@ -8,6 +8,7 @@ package main
 import (
 	"crypto/sha256"
 	"encoding/hex"
+	"encoding/json"
 	"flag"
 	"fmt"
 	"path/filepath"
@@ -46,20 +47,64 @@ func (s *State) key() string {
 	return hex.EncodeToString(h.Sum(nil))[:24]
 }
 
-// canonArt normalises what cannot matter: names of leftover temporaries.
+// canonArt normalises what cannot matter: names of leftover temporaries, and the identifiers
+// of executions ("run" ids), which dawn only ever compares for equality: they are renamed in
+// order of first occurrence over the records in path order.
 func canonArt(art map[string]string) map[string]string {
 	out := map[string]string{}
-	var temps []string
+	var temps, recs []string
 	for k, v := range art {
-		if strings.HasPrefix(k, ".dawn/build/temp/") && !strings.HasSuffix(k, "/") {
+		switch {
+		case strings.HasPrefix(k, ".dawn/build/temp/") && !strings.HasSuffix(k, "/"):
 			temps = append(temps, v)
-			continue
+		case strings.HasPrefix(k, ".dawn/build/targets/") || strings.HasPrefix(k, ".dawn/build/sources/"):
+			recs = append(recs, k)
+		default:
+			out[k] = v
 		}
-		out[k] = v
 	}
 	sort.Strings(temps)
 	for i, t := range temps {
 		out[fmt.Sprintf(".dawn/build/temp/#%d", i)] = t
+	}
+	sort.Strings(recs)
+	ren := map[string]string{}
+	name := func(id string) string {
+		if id == "" {
+			return ""
+		}
+		if _, ok := ren[id]; !ok {
+			ren[id] = fmt.Sprintf("r%d", len(ren))
+		}
+		return ren[id]
+	}
+	for _, k := range recs {
+		var rec struct {
+			Doc   string            `json:"doc"`
+			Deps  map[string]string `json:"dependencies"`
+			Stamp string            `json:"stamp"`
+			Rerun bool              `json:"rerun"`
+			Run   string            `json:"run"`
+		}
+		if err := json.Unmarshal([]byte(art[k]), &rec); err != nil {
+			out[k] = art[k] // not a well-formed record (stray or torn file): keep the bytes
+			continue
+		}
+		var b strings.Builder
+		fmt.Fprintf(&b, "doc=%q stamp=%s rerun=%v run=%s", rec.Doc, rec.Stamp, rec.Rerun, name(rec.Run))
+		var ds []string
+		for d := range rec.Deps {
+			ds = append(ds, d)
+		}
+		sort.Strings(ds)
+		for _, d := range ds {
+			st := rec.Deps[d]
+			if i := strings.LastIndexByte(st, '#'); i >= 0 {
+				st = st[:i] + "#" + name(st[i+1:])
+			}
+			fmt.Fprintf(&b, " dep[%s]=%s", d, st)
+		}
+		out[k] = b.String()
 	}
 	return out
 }
@@ -318,6 +363,7 @@ func (x *searcher) step(s *State, op Op) []*State {
 		return nil
 	}
 	n.Art = artOf(res.After)
+	x.r.Outcome("executed_sets", op.Name+":"+setString(res.Executed)+"|"+es(res.RunErr))
 	// sources must never change
 	for p, c := range s.V.render() {
 		if res.After[p] != c {
@@ -464,9 +510,12 @@ func main() {
 		return
 	}
 	ops := alphabet(*fProp, r.Thorough())
-	depth := 4
+	depth := 5
+	if len(ops) <= 12 {
+		depth = 6
+	}
 	if r.Thorough() {
-		depth = 7
+		depth = 8
 	}
 	if *fDepth > 0 {
 		depth = *fDepth
